@@ -585,6 +585,15 @@ Theorem c12_source_instr_never_stuck : forall (pc : pconfig) (ms : list task) (t
 Proof. exact src_pm_never_stuck. Qed.
 Print Assumptions c12_source_instr_never_stuck.
 
+(* no deadlock at instruction granularity: the only instruction that can fail to progress is lock().await on a held
+   lock; while some task is unfinished, some unfinished task is not waiting for a held lock *)
+Theorem c12_source_instr_no_deadlock : forall (pc : pconfig) (ms : list task),
+  pall_done pc (pmrun src_program pc ms) = false ->
+  exists t, t < length (ptasks pc) /\ ptask_done (pmrun src_program pc ms) t = false /\
+            blocked (pmrun src_program pc ms) t = false.
+Proof. exact src_pm_no_deadlock. Qed.
+Print Assumptions c12_source_instr_no_deadlock.
+
 Example c12_nonvacuous_instr :
   let s1 := pmrun src_program two_fill [0; 0; 0; 0; 0; 1; 1] in
   req (psh s1) = 1 /\ calls (psh s1) = [] /\ lock (psh s1) 0 = Some 0 /\ waiting (snd (ppcs s1 1)) = true /\
